@@ -160,3 +160,59 @@ def check_clone(ctx, F, rule="E-VNM.clone"):
                             ("clones a container of Unowned<str> pointers (%s): both maps own the same allocations"
                              % shallow[0][:80]) if shallow else "no fresh Box<str> is created for the names of the clone"))
     return 1
+
+
+def check_duplicate_test(ctx, F, rule="E-VNM.dup"):
+    """`set_var_name(var, name)` with a name that is already in `index`: the call is rejected (Err(DuplicateVarName))
+    exactly when the name belongs to a *different* variable; renaming a variable to its own name succeeds.  From MIR:
+    the comparison between the present owner (`*entry.get()`) and `var` decides; the block that builds the error is
+    reachable from its `differ` edge only, the `same` edge reaches the Ok return without building one."""
+    fids = [f for f in F.mir if f.startswith(MOD) and f.endswith("::set_var_name")]
+    if not ctx.anchor(rule, "VarNameMap::set_var_name", len(fids) == 1):
+        return 0
+    fid = fids[0]
+    m = F.mir[fid]
+    B = cfg.Body(m)
+    errs = [i for i in sorted(B.reach) if not m["blocks"][i]["c"] and
+            any((s.get("rv") or {}).get("k") == "aggr" and "DuplicateVarName" in str((s.get("rv") or {}).get("adt", ""))
+                for s in m["blocks"][i]["s"])]
+    tests = []
+    for i in sorted(B.reach):
+        b = m["blocks"][i]
+        if b["c"]:
+            continue
+        for s in b["s"]:
+            rv = s.get("rv") or {}
+            if rv.get("k") == "bin" and rv.get("o") in ("Eq", "Ne") and isinstance(s.get("lhs"), int):
+                oa = origins(B, m, [rv.get("a")]) + origins(B, m, [rv.get("b")])
+                names = [(cfg.callee_name(o[1]) or "") for o in oa if o[0] == "call"]
+                if any(re.search(r"OccupiedEntry<.*>::get$|OccupiedEntry::<.*>::get$", x) for x in names) and \
+                        any(o[0] == "param" for o in oa):
+                    t = b["t"]
+                    if t["k"] == "switch" and cfg.op_place(t.get("d")) == s["lhs"]:
+                        zero = [blk for v, blk in t["t"] if str(v) == "0"]
+                        tests.append((i, rv["o"], zero, t))
+    if not ctx.anchor(rule, "owner comparison and DuplicateVarName construction in set_var_name", bool(errs) and len(tests) == 1):
+        return 0
+    i, op, zero, t = tests[0]
+    succ = [x for x in B.succ[i]]
+    zero_succ = zero[0] if zero else None
+    nonzero = [x for x in succ if x != zero_succ]
+    differ = nonzero if op == "Ne" else [zero_succ]
+    same = [zero_succ] if op == "Ne" else nonzero
+    from_same = set()
+    for sx in same:
+        if sx is not None:
+            from_same |= B.reachable_from(sx, avoid=(i,))
+    from_diff = set()
+    for dx in differ:
+        if dx is not None:
+            from_diff |= B.reachable_from(dx, avoid=(i,))
+    ok = all(e in from_diff for e in errs) and not any(e in from_same for e in errs)
+    ctx.ob(rule, rule + ":set_var_name", ok,
+           "%s (%s): %s" % (F.nice(fid), F.where(fid),
+                            "a present name is rejected exactly when it belongs to another variable" if ok else
+                            "the duplicate-name error is built on the edge where the present owner *equals* the variable being "
+                            "renamed (or not on the `differs` edge): a name owned by another variable is accepted, two variables "
+                            "share one name and name_to_var / var_name are no longer inverse"))
+    return 1
